@@ -240,6 +240,14 @@ func runChanDisc(c *core.Ctx) {
 					c.OK(props, fname(c, fn), k, pos, "DR3: "+why)
 					continue
 				}
+				if snd, isS := op.Instr.(*ssa.Send); isS {
+					if u, isU := an.LoadedValue(snd.X).(*ssa.UnOp); isU && u.Op == token.ARROW && u.Parent() == fn && an.PathOf(u.X) == an.PathOf(snd.Chan) {
+						if ok, _ := tokenExplicit(fn, u); ok {
+							c.OK(props, fname(c, fn), k, pos, "DR3: explicit put-back of the token received from "+an.PathOf(snd.Chan)+" in this function (1-slot channel, never blocks)")
+							continue
+						}
+					}
+				}
 				if ok, why := borrowOp(c, fn); ok {
 					c.OK(props, fname(c, fn), k, pos, "DR3: "+why)
 					continue
@@ -265,6 +273,15 @@ func runChanDisc(c *core.Ctx) {
 				if ok, why := tokenAcquire(fn, op); ok {
 					c.OK(props, fname(c, fn), k, pos, "DR3: "+why)
 					continue
+				}
+				if u, isU := op.Instr.(*ssa.UnOp); isU {
+					if ok, why := tokenExplicit(fn, u); ok {
+						c.OK(props, fname(c, fn), k, pos, "DR3: "+why)
+						continue
+					} else if why != "" {
+						c.Bad(props, fname(c, fn), k, pos, "token taken from "+an.PathOf(op.Chan)+": "+why+" — the state is lost and the next holder blocks forever")
+						continue
+					}
 				}
 				if ok, why := borrowOp(c, fn); ok {
 					c.OK(props, fname(c, fn), k, pos, "DR3: "+why)
@@ -705,4 +722,101 @@ func doneAfterCancel(fn *ssa.Function, op an.ChanOp) (bool, string) {
 		return true, "preceded by a synchronous closure call that defers this context's cancel: the channel is closed when the receive runs"
 	}
 	return false, "no completed cancel() of this context dominates the receive"
+}
+
+// ---- DR3, explicit form: `s := <-x.tok; …; x.tok <- s` with the put-back
+// written out on every way to a return instead of deferred.
+
+// explicitReleases: the sends in fn that put the value received by acq back on
+// the channel it came from.
+func explicitReleases(fn *ssa.Function, acq *ssa.UnOp) []*ssa.Send {
+	var out []*ssa.Send
+	chPath := an.PathOf(acq.X)
+	an.Instrs(fn, func(in ssa.Instruction) {
+		s, ok := in.(*ssa.Send)
+		if !ok || an.PathOf(s.Chan) != chPath {
+			return
+		}
+		if an.LoadedValue(s.X) == ssa.Value(acq) || s.X == ssa.Value(acq) {
+			out = append(out, s)
+		}
+	})
+	return out
+}
+
+// forwardHits walks forward from just after start; stop(in) ends a path as
+// "hit"; a path that reaches a return (or, with toReturn false, just ends)
+// without a hit is a miss. It reports whether some path misses, and whether
+// some path hits.
+func forwardScan(start ssa.Instruction, stop func(ssa.Instruction) bool) (miss, hit bool) {
+	seen := map[*ssa.BasicBlock]bool{}
+	var walk func(b *ssa.BasicBlock, from int)
+	walk = func(b *ssa.BasicBlock, from int) {
+		for i := from; i < len(b.Instrs); i++ {
+			if stop(b.Instrs[i]) {
+				hit = true
+				return
+			}
+			if _, isRet := b.Instrs[i].(*ssa.Return); isRet {
+				miss = true
+				return
+			}
+		}
+		for i, sb := range b.Succs {
+			if an.DeadEdge(b, i) || seen[sb] {
+				continue
+			}
+			seen[sb] = true
+			walk(sb, 0)
+		}
+	}
+	b := start.Block()
+	idx := 0
+	for i, in := range b.Instrs {
+		if in == start {
+			idx = i + 1
+		}
+	}
+	walk(b, idx)
+	return
+}
+
+// tokenExplicit: acq's token is put back exactly once on every path to a return.
+func tokenExplicit(fn *ssa.Function, acq *ssa.UnOp) (bool, string) {
+	rels := explicitReleases(fn, acq)
+	if len(rels) == 0 {
+		return false, ""
+	}
+	if !tokenChannel(fn, acq.X) {
+		return false, ""
+	}
+	isRel := func(in ssa.Instruction) bool {
+		for _, r := range rels {
+			if in == ssa.Instruction(r) {
+				return true
+			}
+		}
+		return false
+	}
+	if miss, _ := forwardScan(acq, isRel); miss {
+		return false, "a return is reachable from the acquire without the token being put back"
+	}
+	for _, r := range rels {
+		// a second put-back (without a new acquire in between) would block on the full 1-slot channel
+		again := false
+		forwardScan(r, func(in ssa.Instruction) bool {
+			if in == ssa.Instruction(acq) {
+				return true
+			}
+			if isRel(in) {
+				again = true
+				return true
+			}
+			return false
+		})
+		if again {
+			return false, "the token can be put back twice"
+		}
+	}
+	return true, fmt.Sprintf("token acquired from %s and put back exactly once on every path to a return (%d explicit release(s))", an.PathOf(acq.X), len(rels))
 }
